@@ -68,7 +68,7 @@ def parse_frames(data, masked):
     return out
 
 
-def session(ctx, side="server", k=4, first=()):
+def session(ctx, side="server", k=4, first=(), modes=("loop",)):
     import logging
 
     import aiohttp
@@ -78,8 +78,10 @@ def session(ctx, side="server", k=4, first=()):
     loop = install(VLoop())
     heartbeat = ctx.pick("heartbeat", [None, 4.0])
     close_timeout = ctx.pick("close_timeout", [2.0, 10.0])
-    state = {"ws": None, "received": [], "a_done": False, "a_error": None}
+    state = {"ws": None, "received": [], "a_done": False, "a_error": None, "self_close": None}
     trace = []
+    # the application either keeps receiving, or answers the first data message by closing the session itself
+    handler_mode = ctx.pick("handler_mode", list(modes))
 
     async def receive_loop(ws):
         try:
@@ -88,6 +90,16 @@ def session(ctx, side="server", k=4, first=()):
                 state["received"].append((int(msg.type), msg.data if not isinstance(msg.data, BaseException) else "exc"))
                 if msg.type in (aiohttp.WSMsgType.CLOSE, aiohttp.WSMsgType.CLOSING, aiohttp.WSMsgType.CLOSED,
                                 aiohttp.WSMsgType.ERROR):
+                    break
+                if handler_mode != "loop" and msg.type == aiohttp.WSMsgType.TEXT:
+                    t0 = loop.time()
+                    state["self_close"] = "pending"
+                    try:
+                        await ws.close()
+                    except asyncio.CancelledError:
+                        state["self_close"] = "cancelled"  # the task was cancelled while closing: that ends close() too
+                        raise
+                    state["self_close"] = loop.time() - t0
                     break
         except asyncio.CancelledError:
             state["a_error"] = "cancelled"
@@ -191,7 +203,7 @@ def session(ctx, side="server", k=4, first=()):
     dropped = False
 
     def fail(key, **kw):
-        info = {"key": f"{key}:{side}", "trace": trace, "heartbeat": heartbeat, "close_timeout": close_timeout,
+        info = {"key": f"{key}:{side}", "trace": trace, "heartbeat": heartbeat, "close_timeout": close_timeout, "handler_mode": handler_mode,
                 "received": [list(map(str, r)) for r in state["received"]]}
         info.update(kw)
         return False, "inv:" + key, info
@@ -288,6 +300,10 @@ def session(ctx, side="server", k=4, first=()):
     loop.run_ready()
     if loop.exc:
         return fail("loop-exception-handler-called", exc=str(loop.exc[0].get("exception"))[:200])
+    if state["self_close"] == "pending":
+        return fail("close-never-returns", who="handler")
+    if isinstance(state["self_close"], float) and state["self_close"] > close_timeout + 1.01:
+        return fail("close-exceeds-timeout", took=state["self_close"], who="handler")
     if not state["a_done"]:
         return fail("receive-blocked-forever")
     for t, t0 in close_calls:
@@ -311,7 +327,11 @@ def session(ctx, side="server", k=4, first=()):
     sig = [tuple(t) for t in trace2 if t[0] == "peer" and t[1] not in ("text", "ping", "text@timer") or t[0] == "app" and t[1] != "send"]
     cancelled = ("app", "cancel-receiver") in [tuple(t) for t in trace2]
     unresponsive = ("peer", "unresponsive") in [tuple(t) for t in trace2]
-    if sig and sig[0][0] == "peer" and sig[0][1].startswith("close") and not cancelled and not unresponsive:
+    # (when the application itself closed after a data message, the peer's close frame is the *answer*: it may
+    # come within the close timeout - peer's code - or too late - 1006; both are what the property says)
+    self_closed_first = state["self_close"] is not None
+    if sig and sig[0][0] == "peer" and sig[0][1].startswith("close") and not cancelled and not unresponsive \
+            and not (self_closed_first and cc == 1006):
         # the first significant event was the peer's close frame on a live session
         # (a peer that drops the connection in the same loop iteration as its close frame never
         # took our echo: that end may be reported as abnormal)
@@ -350,7 +370,10 @@ def jobs(tier):
               ["peer", "drop"], ["app", "close"], ["app", "send"], ["app", "cancel-receiver"], ["advance", 5]]
     for side in ("server", "client"):
         for f in firsts:
-            out.append(dict(name=f"{side}-{f[0]}-{f[1]}", func="session", params=dict(side=side, k=k, first=[f]), limits=lim))
+            # (the self-closing application only differs once a data message has arrived)
+            modes = ["loop", "close-after-first-message"] if (f in (["peer", "text"], ["advance", 5]) or not quick) else ["loop"]
+            out.append(dict(name=f"{side}-{f[0]}-{f[1]}", func="session", params=dict(side=side, k=k, first=[f], modes=modes),
+                            limits=lim))
     return out
 
 
@@ -364,4 +387,4 @@ REQUIRED_OUTCOMES = ("server:cc=1000", "client:cc=1000", "server:cc=1006", "clie
 def bounds(tier):
     return {"script": "k=3 (quick) / 4 steps; first step each of 10 operations (one job each), later steps solver-chosen from the enabled ones",
             "alphabet": "peer: text, text arriving in the loop iteration of the next due timer, ping, close(1000), close(4001), bad opcode, drop, stop answering pings; each event optionally in the same loop iteration as the next one; app: close(), send_str(), cancel the receiving task; advance 1/5/20 s",
-            "config": "heartbeat in {None, 4 s}, close timeout in {2 s, 10 s}; both WebSocketResponse and ClientWebSocketResponse"}
+            "config": "heartbeat in {None, 4 s}, close timeout in {2 s, 10 s}; the application keeps receiving or closes the session itself after the first data message; both WebSocketResponse and ClientWebSocketResponse"}
